@@ -922,22 +922,21 @@ async fn update_test_file<T: std::io::Write, M: MakeConnection>(
         filename: String,
         outfilename: PathBuf,
         outfile: File,
-        halt: bool,
     }
     let (outfilename, outfile) = create_outfile(filename)?;
     let mut stack = vec![Item {
         filename: filename.to_string_lossy().to_string(),
         outfilename,
         outfile,
-        halt: false,
     }];
+    // Once a `halt` is seen, no later record is run, in whichever file it lies: a run stops there too.
+    let mut halt = false;
 
     for record in records {
         let Item {
             filename,
             outfilename,
             outfile,
-            halt,
         } = stack.last_mut().unwrap();
 
         match &record {
@@ -947,7 +946,6 @@ async fn update_test_file<T: std::io::Write, M: MakeConnection>(
                     filename: filename.clone(),
                     outfilename,
                     outfile,
-                    halt: false,
                 });
 
                 begin_times.push(Instant::now());
@@ -971,12 +969,12 @@ async fn update_test_file<T: std::io::Write, M: MakeConnection>(
                 finish_test_file(out, &mut begin_times, &mut did_pop, file)?;
             }
             _ => {
-                if *halt {
+                if halt {
                     writeln!(outfile, "{record}")?;
                     continue;
                 }
                 if matches!(record, Record::Halt { .. }) {
-                    *halt = true;
+                    halt = true;
                     writeln!(outfile, "{record}")?;
                     continue;
                 }
@@ -998,7 +996,6 @@ async fn update_test_file<T: std::io::Write, M: MakeConnection>(
         filename,
         outfilename,
         outfile,
-        halt: _,
     } = stack.last_mut().unwrap();
     override_with_outfile(filename, outfilename, outfile)?;
 
